@@ -50,10 +50,19 @@ func c08Run(w *W) {
 	// before the traffic starts: afterwards there must again be exactly one
 	// link per pair - every message once, nothing echoed
 	flap := !slow && !burst && w.Choose(simrt.SShape, 3) == 0
+	empties := !slow && !burst && w.Choose(simrt.SShape, 2) == 0
+	w.SetShape("empty_bodies", empties)
 	w.SetShape("slow_member", slow)
 	w.SetShape("burst", burst)
 	w.SetShape("link_flap", flap)
 	var dialled []mangos.Pipe
+	// early: every dialling member first tries while nobody listens on the
+	// address (a synchronous Dial that fails: connection refused) and again
+	// once somebody does - the usual "retry until the other side is there".
+	// The failed attempt must leave nothing running that connects by itself
+	// later (a second link between the same two members).
+	early := !slow && !burst && !flap && w.Choose(simrt.SShape, 3) == 0
+	w.SetShape("dial_before_listen", early)
 	var members []*c8Member
 	var all []mangos.Socket
 	defer func() {
@@ -79,13 +88,33 @@ func c08Run(w *W) {
 		members = append(members, m)
 		return m
 	}
+	listeners := map[*c8Member]mangos.Listener{}
 	listen := func(m *c8Member) {
-		m.addr = w.Addr(tran)
-		if err := m.s.Listen(m.addr); err != nil {
+		if m.addr == "" {
+			m.addr = w.Addr(tran)
+		}
+		l, err := m.s.NewListener(m.addr, nil)
+		if err == nil {
+			err = l.Listen()
+		}
+		if err != nil {
 			w.Failf("HARNESS/listen", "%v", err)
 		}
+		listeners[m] = l
 	}
 	dial := func(m, to *c8Member) {
+		if early {
+			// the listener is away for a moment: the first attempt is refused
+			// (settled first: closing a listener drops connections it has
+			// accepted but not yet attached)
+			w.Settle()
+			_ = listeners[to].Close()
+			if err := m.s.Dial(to.addr); err == nil {
+				w.Failf("HARNESS/early-dial", "Dial to %s succeeded although nobody listens", to.addr)
+			}
+			listen(to)
+			w.Probe("dial-before-listen")
+		}
 		if err := m.s.Dial(to.addr); err != nil {
 			w.Failf("HARNESS/dial", "%v", err)
 		}
@@ -174,6 +203,9 @@ func c08Run(w *W) {
 	}
 	w.Op("topology %s over %s: %d members, each sends %d messages from %d tasks", topo, tran, len(members), nmsg, ntask)
 	w.Sleep(5 * time.Millisecond)
+	if early {
+		w.Sleep(60 * time.Millisecond) // several reconnect intervals: whatever a failed Dial left behind has acted by now
+	}
 	w.Settle()
 	if flap {
 		for k := 1 + w.Choose(simrt.SProg, 2); k > 0 && len(dialled) > 0; k-- {
@@ -221,6 +253,12 @@ func c08Run(w *W) {
 					if err := m.s.Send([]byte(fmt.Sprintf("%s:%d:%d", m.name, t, i))); err != nil {
 						return nil, err
 					}
+					if empties && i == nmsg/2 {
+						// a message with an empty body is a message
+						if err := m.s.Send(nil); err != nil {
+							return nil, err
+						}
+					}
 					// pace below every queue length (a burst stays within the 128-deep send queues)
 					if !burst {
 						w.Sleep(time.Duration(50+w.Choose(simrt.SProg, 200)) * time.Microsecond)
@@ -250,6 +288,9 @@ func c08Run(w *W) {
 		count := map[string]int{}
 		for _, b := range m.r.got {
 			count[b]++
+			if b == "" {
+				continue // counted below: one per sending task of every expected member
+			}
 			origin := strings.SplitN(b, ":", 2)[0]
 			if origin == m.name {
 				w.Failf("C08/echo:"+topo, "%s received its own message %q back", m.name, b)
@@ -275,6 +316,18 @@ func c08Run(w *W) {
 						dups = append(dups, b)
 					}
 				}
+			}
+		}
+		if empties {
+			want := 0
+			for _, o := range members {
+				if m.expect[o.name] && o.sender {
+					want += ntask
+				}
+			}
+			if count[""] != want {
+				w.Failf("C08/empty-message:"+topo, "%s received %d messages with an empty body; %d sending tasks of the members it hears each sent exactly one", m.name, count[""], want)
+				return
 			}
 		}
 		sort.Strings(dups)
